@@ -445,4 +445,25 @@ theorem mismatch_reason' {s : List Char} (h : parse s = .error .ArgumentTypeMism
       rw [ht1, ht2]
       intro hh; exact hne (Option.some.inj hh)
 
+/-! ## the domain, in terms of the specifications read -/
+
+theorem plainPercent_iff : ∀ (fuel : Nat) (s : List Char),
+    plainPercent fuel s = true ↔ ∀ d ∈ directivesAux fuel s, d.plain = true := by
+  intro fuel
+  induction fuel with
+  | zero => intro s; simp [plainPercent, directivesAux]
+  | succ fuel ih =>
+    intro s
+    cases s with
+    | nil => simp [plainPercent, directivesAux]
+    | cons c cs =>
+      simp only [plainPercent, directivesAux]
+      split
+      · exact ih cs
+      · cases hs : scanDirective cs with
+        | none => simp
+        | some p =>
+          obtain ⟨d, rest⟩ := p
+          simp only [Bool.and_eq_true, List.mem_cons, forall_eq_or_imp, ih rest]
+
 end I18n.PyFmt
